@@ -8,7 +8,8 @@ C20: `par <n> <schedule> X:<shared digests> [G:… B:… ignored] o:<tid>:<ctx>:
   (no turnstile: the model runs a round-robin interleaving; by `interleaving_eq_sequential` every
   other interleaving gives the same canonical per-thread results).
 * `<op>` = `F` | `P,a,b` | `S,a,b` | `C,h,<type>` | `D,h` | `Z,h` | `M,n` | `R,k` |
-  `W,<names>,<digest>,<descriptor>` (a whole library operation: opaque to the model).
+  `W,<names>,<digest>,<descriptor>` (a whole library operation: opaque to the model);
+  `R,k` reads shared object `k mod (number of shared objects)`.
 * answer: `T0 <result>… T1 <result>… solo=ok`: the canonical results of every thread in the
   interleaved run of `ConcModel.run`; `solo=ok` iff they equal the results of running every thread's
   operations alone (`solo=MODEL-DIFF` would contradict the theorem).
@@ -126,7 +127,7 @@ def handle : List String → String
     match n.toNat?, parseToks rest {} with
     | some n, some p =>
       if n = 0 ∨ n > 16 ∨ p.ops.any (fun o => o.1 ≥ n) then "bad-op" else
-      let E : Env := ⟨fun k => p.shared.getD k 0, Prog.tmrWord⟩
+      let E : Env := ⟨fun k => p.shared.getD (k % p.shared.length) 0, Prog.tmrWord⟩
       let steps? : Option (List (Step × Bool)) :=
         if sched = "free" then some (buildRoundRobin n p.ops)
         else match Drv.nats? (sched.splitOn ".") with
